@@ -122,11 +122,17 @@ pub fn child_main() -> i32 {
 }
 
 fn run_child(work: &Work, log: &Path) -> Result<String, String> {
+    run_recorded_child("__c13work", &work.dir, work, log)
+}
+
+/// Run the internal command `cmd` of this binary under the file-system recorder (mutations below
+/// `root` are logged to `log`); `work` is passed as JSON on stdin; returns the child's stdout.
+pub fn run_recorded_child<W: Serialize>(cmd: &str, root: &str, work: &W, log: &Path) -> Result<String, String> {
     let exe = std::env::current_exe().map_err(|e| e.to_string())?;
     let mut child = Command::new(exe)
-        .arg("__c13work")
+        .arg(cmd)
         .env("LD_PRELOAD", shim_path())
-        .env("FSREC_ROOT", &work.dir)
+        .env("FSREC_ROOT", root)
         .env("FSREC_LOG", log)
         .stdin(Stdio::piped())
         .stdout(Stdio::piped())
@@ -163,7 +169,7 @@ fn recover(dir: &Path, buffer_size: usize) -> Result<State, String> {
     }
 }
 
-fn describe_cut(log: &[Rec], cut: &Cut) -> String {
+pub fn describe_cut(log: &[Rec], cut: &Cut) -> String {
     let last = if cut.upto > 0 { format!("{:?}", log[cut.upto - 1]) } else { "start".into() };
     let next = log.get(cut.upto).map(|r| format!("{r:?}")).unwrap_or_else(|| "end".into());
     format!(
